@@ -52,6 +52,13 @@ func crafted() map[string]string {
 		"crafted/invalid-pattern": head + `{"type":"string","pattern":"(unclosed"}` + tail,
 		"crafted/invalid-minmax":  head + `{"type":"string","minLength":-1}` + tail,
 	}
+	// repeated subtrees (anchors/aliases in one spelling, spelled out in the others): identical inline default
+	// responses with inline examples on every operation (convenient errors depend on their equality), and a deep
+	// reference whose target node is the second occurrence of a repeated subtree (an alias in the anchored spelling)
+	errResp := `{"description":"error","content":{"application/json":{"schema":{"type":"object","required":["code"],"properties":{"code":{"type":"integer"},"message":{"type":"string"}}},"examples":{"notFound":{"value":{"code":404,"message":"nf"}},"boom":{"value":{"code":500,"message":"boom"}}},"example":{"code":1}}}}`
+	m["crafted/repeated-default-responses"] = `{"openapi":"3.0.3","info":{"title":"t","version":"1.0"},"paths":{"/a":{"get":{"operationId":"getA","responses":{"200":{"description":"ok"},"default":` + errResp + `}}},"/b":{"post":{"operationId":"postB","responses":{"204":{"description":"ok"},"default":` + errResp + `}}},"/c":{"delete":{"operationId":"delC","responses":{"200":{"description":"ok","content":{"application/json":{"schema":{"type":"string"}}}},"default":` + errResp + `}}}}}`
+	vet := `{"type":"object","required":["name"],"properties":{"name":{"type":"string","minLength":1},"phone":{"type":"string"},"tags":{"type":"array","items":{"type":"string"}}}}`
+	m["crafted/deep-ref-to-repeated-subtree"] = head + `{"type":"object","properties":{"first":{"$ref":"#/components/schemas/Pet/properties/vet"},"second":{"$ref":"#/components/schemas/Pet/properties/owner/properties/doctor"},"pet":{"$ref":"#/components/schemas/Pet"}}},"Aaa":` + vet + `,"Pet":{"type":"object","properties":{"vet":` + vet + `,"owner":{"type":"object","properties":{"doctor":` + vet + `,"age":{"type":"integer"}}}}}` + tail
 	// invalid documents whose diagnostic names several places; the place reported first lies later in the text
 	inv := func(paths, comps string) string {
 		return `{"openapi":"3.0.3","info":{"title":"t","version":"1.0"},"paths":` + paths + `,"components":{"schemas":` + comps + `}}`
